@@ -83,6 +83,14 @@ fn boundary_values(rust_type: usize) -> Vec<i128> {
             v.push(-p + d);
         }
     }
+    // ... and around the powers of ten (where the decimal length changes)
+    for k in 0..=19u32 {
+        let p = 10i128.pow(k);
+        for d in [-2i128, -1, 0, 1] {
+            v.push(p + d);
+            v.push(-p - d);
+        }
+    }
     v.retain(|x| *x >= lo && *x <= hi);
     v.sort();
     v.dedup();
